@@ -131,7 +131,7 @@ var specs = map[string]*Spec{
 		Thorough:   TierParams{Budget: 20 * time.Minute},
 		Level:      "exploration",
 		Rule: "each plan is one TranslatePackages invocation: 1-9 package patterns (subset, order and repetition drawn from the seed) out of /repo's 13 example packages or out of a scratch module holding every file of testdata/negative-tests as its own (failing) package plus copies of three example packages, a flag combination (TypeCheck, AddSourceFileComments, SkipInterfaces), a scheduling strategy for the per-package worker goroutines (uniform / sticky / PCT, yield at every function entry of the translator and printer) and a permutation for every map range. " +
-			"Oracle: for every package byte-identical file text and identical error string compared with a golden translation of that package alone on the sequential schedule, in the slot of that package; no panic, no deadlock; in the -race build no race report. " +
+			"Oracle: for every package byte-identical file text and identical error string compared with a golden translation of that package alone, produced by a FRESH PROCESS (the instrumented cmd/goose on the sequential schedule), in the slot of that package; no panic, no deadlock; in the -race build no race report. All patterns of a module come from one real multi-pattern load (shared import graph); 1/12 of the scratch plans reload afresh with each package's files handed to the parser in a permuted order; 1/16 of the plans run the instrumented cmd/goose binary itself under the simulated scheduler (exit status, stderr, written files; the output directory may already hold an earlier, longer output). " +
 			"Non-trivial: at least two packages were co-translated and their workers were actually interleaved (more context switches than workers); distinct = distinct event-log fingerprints among those.",
 		Components: map[string]string{"goose.go types.go idents.go errors.go interface.go internal/coq/coq.go": "real (compiled from /repo's working tree, yields at function entries, go statement and map ranges routed through the simulator)",
 			"go/packages loader (go list, parser, type checker)": "real, memoised per (module, pattern): runs before the workers start and is not part of the concurrency", "sync.WaitGroup, goroutine scheduling, map iteration order, time, math/rand": "stub: verif/simsync, simrt, simtime, simrand"},
@@ -145,7 +145,7 @@ var specs = map[string]*Spec{
 		Quick:    TierParams{Runs: 16000, Budget: 5 * time.Minute},
 		Thorough: TierParams{Budget: 10 * time.Minute},
 		Level:    "exploration",
-		Rule: "fault-free configuration of the disk simulator: one client, a plan of 1-40 Read/ReadTo/Write/Size/Barrier calls on a disk of 0,1,2,3,8 or 100 blocks with boundary addresses (size-1,size,size+1,2^32,2^52,2^64-1), wrong-sized write buffers and aliasing probes (scribble on the buffer after Write and on the slice returned by Read, one reusable buffer, dirty ReadTo buffers); " +
+		Rule: "fault-free configuration of the disk simulator: one client, a plan of 1-40 Read/ReadTo/Write/Size/Barrier calls on a disk of 0,1,2,3,8 or 100 blocks with boundary addresses (size-1,size,size+1,2^32,2^52,2^64-1), wrong-sized write buffers and aliasing probes (scribble on the buffer after Write and on the slice returned by Read, one reusable buffer, dirty ReadTo buffers, a slice returned by Read held across later operations); an API call that never returns is a violation; " +
 			"the same plan is executed on 8 systems (disk/async_disk x Mem/File-on-simulated-kernel x direct/global wrappers) and every tenth plan also on the real Linux kernel, each compared operation by operation with the register-array model and a neighbour scan after every write. " +
 			"Non-trivial: some read returned a block produced by an earlier write of the plan; distinct = distinct plans (hash of the plan).",
 		Components:   machComponents,
@@ -159,9 +159,9 @@ var specs = map[string]*Spec{
 		Quick:    TierParams{Runs: 1500, Budget: 5 * time.Minute},
 		Thorough: TierParams{Budget: 15 * time.Minute},
 		Level:    "fault_enumeration",
-		Rule: "three batches by plan index mod 3. (a) reopen: prior image absent or of length 0,1,n,n*4096-1,4095,4096,4097,n*4096,n*4096+1,(n+3)*4096,random bytes (n = requested blocks), then 1-4 rounds of NewFileDisk(n_i)/operations/Close with n_i varying; after every open Size, every retained whole block and every new block (must be zero, read with Read and with ReadTo into a dirty buffer) are checked; every 15th plan on the real kernel. " +
+		Rule: "plan index mod 4 == 3 is batch (d), the others go by plan index mod 3. (a) reopen: prior image absent or of length 0,1,n,n*4096-1,4095,4096,4097,n*4096,n*4096+1,(n+3)*4096,random bytes (n = requested blocks), then 1-4 rounds of NewFileDisk(n_i)/operations/Close with n_i varying; after every open Size, every retained whole block and every new block (must be zero, read with Read and with ReadTo into a dirty buffer) are checked; every 15th plan on the real kernel. " +
 			"(b) power crash: for a seeded plan with Barriers on an existing image, EVERY crash point (before each system call of the round) is executed, survivors chosen per the durability model, then reopen and compare every block not written since the last completed Barrier. " +
-			"(c) single-fault enumeration: for a seeded plan EVERY system call x EVERY applicable fault (errno on openat/fstat/ftruncate/pread/pwrite/fsync/close; short pread 0/512; short pwrite 0/512; ENOSPC) is executed; the operation must panic/return an error or all later data must be exact. " +
+			"(c) single-fault enumeration: for a seeded plan EVERY system call x EVERY applicable fault (errno on openat/fstat/ftruncate/pread/pwrite/fsync/close; short pread 0/512; short pwrite 0/512; ENOSPC) is executed; the operation must panic/return an error or all later data must be exact; prior images of every length class, with a length/contents scan when a fault fired inside NewFileDisk that reported success; plus 6 sampled double faults per plan and, for the crash batch, every fsync failing (EIO) combined with crash points after it. (d) concurrent flush failure: 3-5 client tasks write their own block and call Barrier under seeded schedules while one fsync, or every fsync from some point on, fails (flushes take 1 ms of simulated time in 2/3 of the plans); then a power failure loses every unsynced write; a client whose Barrier returned normally must find its value after reopening. " +
 			"Non-trivial: (a) a reopen or prior image was involved, (b,c) the crash/fault fired inside an operation; distinct = distinct concrete plans (plan + fault position/kind).",
 		Components:   machComponents,
 		Assumptions:  []string{"crash model: durable = fsynced data + journal prefix; unsynced writes persist in any subset, the last possibly torn at 512 bytes; real ext4 behaviour cannot be observed in this VM", "the image file's directory entry is durable before the crash batch starts (fsync of the parent directory is outside C11)"},
@@ -188,9 +188,9 @@ var specs = map[string]*Spec{
 		Quick:    TierParams{Runs: 1600, RaceRuns: 800, Budget: 5 * time.Minute},
 		Thorough: TierParams{Budget: 15 * time.Minute},
 		Level:    "fault_enumeration",
-		Rule: "plan index mod 4. (0,1) crash-point enumeration on DirFs over the simulated kernel: prior state = destination absent or old content (0..5000 bytes), optionally a leftover name.tmp of an interrupted earlier call (shorter, equal or longer than the new data; planted at the root and beside the destination), data of 0,1,100,4096 or 70000 bytes, write(2) limited to a few bytes per call in half of the plans; EVERY crash point (before each system call of the call) is executed in strict or ordered journal mode, crash survivors chosen per the durability model, remounted and read: the destination must be the previous state or exactly the data; then a fresh fault-free AtomicCreate over whatever was left behind must yield exactly its data. " +
+		Rule: "every 8th plan is batch (4), the others go by plan index mod 4. (0,1) crash-point enumeration on DirFs over the simulated kernel: prior state = destination absent or old content (0..5000 bytes), optionally a leftover name.tmp of an interrupted earlier call (shorter, equal or longer than the new data; planted at the root and beside the destination), data of 0,1,100,4096 or 70000 bytes, write(2) limited to a few bytes per call in half of the plans; EVERY crash point (before each system call of the call) is executed in strict or ordered journal mode, crash survivors chosen per the durability model, remounted and read: the destination must be the previous state or exactly the data; then a fresh fault-free AtomicCreate over whatever was left behind must yield exactly its data. " +
 			"(2) single-fault enumeration: EVERY system call of the call x {errno (EACCES/ENOSPC/EIO), short write of 1 or half the bytes}: the call panics or returns; the destination is old-or-new at that moment and exactly new if it returned; then the fresh call as above. " +
-			"(3) concurrency: 1-3 creator tasks (independent names / same name in different directories / same name in one directory) plus a reader task under seeded schedules, on DirFs (2/3) or MemFs (1/3): every read sees the old state or one creator's complete data, no creator panics, each destination ends as the complete data of one of its creators. " +
+			"(3) concurrency: 1-3 creator tasks (independent names / same name in different directories / same name in one directory) plus a reader task under seeded schedules, on DirFs (2/3) or MemFs (1/3): every read sees the old state or one creator's complete data, no creator panics, each destination ends as the complete data of one of its creators. (4) sequential histories centred on AtomicCreate (AtomicCreate / Delete / Create+Append / Link / Open+ReadAt over 1-3 directories, on MemFs and DirFs) checked operation by operation and re-read at the end: a completed call stays exact under later unrelated operations. " +
 			"Non-trivial: a fault/crash fired inside the call or a leftover temp file existed (0-2), operations overlapped (3); distinct = distinct concrete plans resp. event-log fingerprints.",
 		Components:   machComponents,
 		Assumptions:  []string{"crash model: durable = fsynced data + journal prefix (strict: fsync(file) forces only that file; ordered: also all earlier metadata); unsynced writes persist in any subset, possibly torn", "visibility after a crash is what a remounted DirFs reads"},
@@ -229,7 +229,7 @@ var specs = map[string]*Spec{
 		Quick:    TierParams{Runs: 12000, RaceRuns: 2000, Budget: 5 * time.Minute},
 		Thorough: TierParams{Budget: 15 * time.Minute},
 		Level:    "exploration",
-		Rule: "plans: 1-2 directories, a sequential setup (a stable file, sometimes a victim file), then 2-4 client tasks with 9-12 operations in total, biased toward collisions: Create/Create and Create/Link of one name, Append through a creator's descriptor while others Open/ReadAt the file, Delete of the victim by one client, AtomicCreate (one client per name; concurrent AtomicCreates belong to C13), List during changes; MemFs in 2/3 of the plans, DirFs on the simulated kernel in 1/3. " +
+		Rule: "plans: 1-2 directories, a sequential setup (a stable file, sometimes a victim file), then 2-4 client tasks with 9-12 operations in total, biased toward collisions: Create/Create and Create/Link of one name, Append through a creator's descriptor while others Open/ReadAt the file, Delete of the victim by one client, AtomicCreate (one client per name; concurrent AtomicCreates belong to C13), List during changes, appends of up to 9000 bytes, a directory created by one client while the others run; MemFs in 2/3 of the plans, DirFs on the simulated kernel in 1/3 (getdents limited to 1-2 entries per call in half of those; DirFs.List is judged by the sandwich oracle). " +
 			"Each plan runs under one seeded schedule with yields before every statement, at every lock operation and system call; after the clients join every touched name is read back. The whole history (invoke/return stamped with event sequence numbers) is checked with porcupine against the filesystem model (descriptors by handle), plus: descriptors open at the same time are distinct, no deadlock, and in the -race build no race report. " +
 			"Non-trivial: two operations of different clients overlapped in time; distinct = distinct event-log fingerprints among those.",
 		Components:   machComponents,
